@@ -586,3 +586,113 @@ func n2MutListValue(r *rng, value string) string {
 
 	return group + "=" + strings.Join(items, "|")
 }
+
+// ---- long lines ------------------------------------------------------------------------------------------------------
+
+const n2LitChars = "abcdefghijklmnopqrstuvwxyz0123456789-_./ABCXYZ%=&?"
+
+// n2Literal: n bytes without mask characters (`*`, `^`, `|`), `$`, `#`, `,`, blanks: one literal run of a pattern.
+func n2Literal(r *rng, n int) string {
+	b := make([]byte, n)
+	for i := range b {
+		b[i] = n2LitChars[r.n(len(n2LitChars))]
+	}
+	if n > 0 && b[0] == '/' {
+		b[0] = 'a'
+	}
+	if n > 1 && b[n-1] == '/' {
+		b[n-1] = 'a'
+	}
+
+	return string(b)
+}
+
+var n2LongKinds = []string{"comment!", "comment#", "literal", "tokens", "domains", "rejected-mod", "rejected-domain", "cosmetic-sel", "cosmetic-domains",
+	"cosmetic-rejected", "hosts", "regex", "host-name"}
+
+// n2LongLine returns a line of about n bytes (n >= 40) of the given kind (see n2LongKinds): comments, valid rules
+// with a long literal run / many pattern tokens / a long modifier list, rejected lines, cosmetic and hosts lines.
+// host (may be empty) is a name the line is written about, so that valid long rules are live for queries on it.
+func n2LongLine(r *rng, kind string, n int, host string) string {
+	if host == "" {
+		host = pick(r, poolDomains)
+	}
+	words := []string{"||" + host + "^", "ads", "##.banner", "$important", "example.org", "0.0.0.0 " + host, "!", "#", "@@", "comment", "|", "é", "--"}
+	fill := func(m int) string {
+		var sb strings.Builder
+		for sb.Len() < m {
+			sb.WriteString(pick(r, words))
+			sb.WriteByte(' ')
+		}
+
+		return strings.TrimRight(sb.String()[:m], " \xc3")
+	}
+	list := func(m int, f func(i int) string, sep string) string {
+		var items []string
+		l := 0
+		for i := 0; l < m; i++ {
+			it := f(i)
+			items = append(items, it)
+			l += len(it) + len(sep)
+		}
+
+		return strings.Join(items, sep)
+	}
+	switch kind {
+	case "comment!":
+		return pick(r, []string{"! ", "!", "!! ", "!#", "! Title: "}) + fill(n)
+	case "comment#":
+		return pick(r, []string{"# ", "#", "# !", "#\t"}) + fill(n)
+	case "literal":
+		return pick(r, []string{"||", "|http://", "", "://", "@@||"}) + host + "/" + n2Literal(r, n) + pick(r, []string{"^", "", "|", "*", "^$important", "$script,image"})
+	case "tokens":
+		return pick(r, []string{"||", "", "@@||"}) + host + "/" + list(n, func(i int) string { return n2Literal(r, 1+r.n(12)) }, pick(r, []string{"*", "^", "^*"}))
+	case "domains":
+		return "||" + host + "^$" + pick(r, []string{"domain=", "denyallow=", "ctag=", "client="}) + list(n, func(i int) string { return fmt.Sprintf("d%d.example", i) }, "|")
+	case "rejected-mod":
+		return "||" + host + "/" + n2Literal(r, n) + "^$" + pick(r, []string{"bogus", "important,unknown-modifier=1", "domain=", "dnstype=NOPE", "dnsrewrite=A;B", "denyallow=~x.com", "ctag=!"})
+	case "rejected-domain":
+		return "||" + host + "^$domain=" + list(n, func(i int) string { return fmt.Sprintf("d%d.example", i) }, "|") + pick(r, []string{"|", "|bad domain", "||x", "|~"})
+	case "cosmetic-sel":
+		return host + pick(r, []string{"##", "#@#", "##", "#?#", "#$#"}) + list(n, func(i int) string { return fmt.Sprintf(".ad-%d", i) }, pick(r, []string{", ", " > ", ""}))
+	case "cosmetic-domains":
+		return list(n, func(i int) string { return negate(r, fmt.Sprintf("d%d.%s", i, host), 1, 6) }, ",") + "," + host + pick(r, []string{"##", "#@#"}) + ".n2long"
+	case "cosmetic-rejected":
+		return list(n, func(i int) string { return fmt.Sprintf("d%d.%s", i, host) }, ",") + pick(r, []string{",,", ",bad domain", ","}) + "##.n2long"
+	case "hosts":
+		return pick(r, []string{"0.0.0.0 ", "127.0.0.1\t", "::1 ", "1.2.3.4  "}) + host + " " + list(n, func(i int) string { return fmt.Sprintf("h%d.%s", i, host) }, pick(r, []string{" ", "\t", "  "}))
+	case "regex":
+		return "/" + strings.NewReplacer(".", `\.`, "/", `\/`, "?", "x").Replace(host+"/"+n2Literal(r, n)) + "/" + pick(r, []string{"", "$important", "$bogus"})
+	default: // "host-name": one bare name with many / long labels (a hosts-style line if it is a domain name, else a pattern)
+		return list(n, func(i int) string { return n2Literal(r, 1+r.n(20)) }, ".") + "." + host
+	}
+}
+
+// n2LongLineMax: the largest length drawn for a kind in the per-line families (the Lean model of NewRule is quadratic in
+// the number of list items, so lists stay below ~200 items there; comments are cheap).
+func n2LongLineMax(kind string) int {
+	switch kind {
+	case "comment!", "comment#":
+		return 70000
+	case "domains", "rejected-domain", "cosmetic-domains", "cosmetic-rejected", "hosts", "host-name":
+		return 2600
+	default:
+		return 9000
+	}
+}
+
+// n2GenLongLine: a long line of a random kind and length.
+func n2GenLongLine(r *rng, host string) string {
+	kind := pick(r, n2LongKinds)
+
+	return n2LongLine(r, kind, n2LongLineLen(r, n2LongLineMax(kind)), host)
+}
+
+// n2LongLineLen: the length of a long line: just above one of 255 / 256 / 300 / 1024 / 4096 / 65536 … or log-scale in [64, max].
+func n2LongLineLen(r *rng, max int) int {
+	if r.chance(1, 2) {
+		return n2Above(r, 64, max)
+	}
+
+	return n2LogSize(r, 64, max)
+}
